@@ -240,6 +240,23 @@ func (c *npCtx) msgJSON(class string, spec *impl.Tree, doc []byte) {
 	})
 }
 
+// msgSeq: several decoding calls on ONE message object (a message that is re-used: a failed
+// Unpack, then a JSON decode; a Pack, then a document whose member "1" is shorter than the
+// bitmap; …) - every call must return normally
+func (c *npCtx) msgSeq(class string, spec *impl.Tree, steps []string) {
+	if _, ok := buildMsgSpec(spec); !ok {
+		return
+	}
+	n := 0
+	for _, s := range steps {
+		n += len(s)
+	}
+	w := fmt.Sprintf("W %d M %s seq %s", npWatchMs, spec.String(), strings.Join(steps, ";"))
+	c.guard(class+" sequence on one message", "", w, n/2+1, func() string {
+		return impl.RunInner(strings.Split(w, " ")[2:])
+	})
+}
+
 func (c *npCtx) shippedUnpack(name string, data []byte) {
 	spec := impl.Shipped(name)
 	w := fmt.Sprintf("W %d X %s unpack %s", npWatchMs, name, gen.H(data))
@@ -832,11 +849,40 @@ func runC04Child(t gen.Tier, r *gen.Rng, rep *Reporter) {
 			c.msgUnpack("msg", spec, advBytes(r))
 		}
 		c.msgUnpack("msg", spec, r.Bytes(r.Intn(40)))
+		docs := jsonDocs(r, keysOfSpecTree(spec))
 		if i%4 == 0 {
-			for j, d := range jsonDocs(r, keysOfSpecTree(spec)) {
+			for j, d := range docs {
 				if j%3 == i%3 {
 					c.msgJSON("msg", spec, d)
 				}
+			}
+		}
+		// decoding into a message that has been used: calls that failed half-way (inside the MTI,
+		// inside the bitmap, inside an element), a Pack, documents with a member "1" (the bitmap
+		// field) shorter / longer than the bitmap - in every order
+		if ok {
+			short := [][]byte{nil, wire[:2], wire[:4], wire[:5], wire[:len(wire)/2], wire[:len(wire)-1], wire, advBytes(r)}
+			bmDocs := [][]byte{[]byte(`{"1":""}`), []byte(`{"1":"00"}`), []byte(`{"1":"80"}`), []byte(`{"1":"C000000000000000"}`),
+				[]byte(`{"0":"0100","1":"8000000000000000"}`), []byte(`{"1":"FFFFFFFFFFFFFFFFFFFFFFFFFFFFFFFFFFFFFFFFFFFFFFFF"}`)}
+			for k := 0; k < 10; k++ {
+				var steps []string
+				for n := 2 + r.Intn(3); n > 0; n-- {
+					switch r.Intn(6) {
+					case 0:
+						steps = append(steps, "p")
+					case 1, 2:
+						steps = append(steps, "u:"+gen.H(gen.Pick(r, short)))
+					case 3:
+						steps = append(steps, "j:"+gen.H(gen.Pick(r, bmDocs)))
+					default:
+						if len(docs) > 0 {
+							steps = append(steps, "j:"+gen.H(gen.Pick(r, docs)))
+						} else {
+							steps = append(steps, "j:"+gen.H(gen.Pick(r, bmDocs)))
+						}
+					}
+				}
+				c.msgSeq("msg", spec, steps)
 			}
 		}
 	}
